@@ -171,6 +171,16 @@ def handle (kind : String) (args : List String) (impl : String) : String :=
         else ""
       let ss := if sp == "" then "" else s!"SPEC {sp} impl={impl}"
       if d == "" && ss == "" then "ok" else d ++ (if d != "" && ss != "" then " ; " else "") ++ ss
+  | "c09.create", [] =>
+    -- `Props.C09u.upstream_stop_completes`: Stop's snapshot of the connection table is taken under the lock createClient publishes under
+    let up := (field impl "up").splitOn "/"
+    let sp :=
+      if impl == "not-parked" then "pause-point-upstream.client.checked-not-reached"
+      else if field impl "stop" != "ok" then "stop-does-not-return"
+      else if up.getD 0 "a" != up.getD 1 "b" then "upstream-connection-left-open-after-stop"
+      else if field impl "leaked" != "0" then "goroutines-left-after-stop"
+      else ""
+    if sp == "" then "ok" else s!"SPEC {sp} impl={impl}"
   | "c09.replace", [] =>
     -- `Props.C09t.stop_leaves_nothing_running`: whatever connections were made while the host list was being replaced, Stop closes them all
     let up := (field impl "up").splitOn "/"
